@@ -68,7 +68,7 @@ Definition unused_err (kv : str * var) : perr := (v_line (snd kv), v_col (snd kv
 Definition validateScope (pi : list (str * var)) : list perr :=
   collect_loop (fun kv => negb (v_used (snd kv))) unused_err pi.
 
-(* proposed fix: collect, sort by token position, then append *)
+(* the code since /repo af9ee3d: collect, sort by token position, then append *)
 Definition pos_leb (a b : perr) : bool :=
   let '(l1, c1, _) := a in let '(l2, c2, _) := b in
   (l1 <? l2)%N || ((l1 =? l2)%N && (c1 <=? c2)%N).
@@ -81,7 +81,11 @@ Definition isort {A} (leb : A -> A -> bool) (l : list A) : list A := fold_right 
 Definition validateScope_fixed (pi : list (str * var)) : list perr := isort pos_leb (validateScope pi).
 
 (* ------------------------------------------------------------------ *)
-(* pkg/parser/type.go: Type, Type.Equals, combineTypes               *)
+(* pkg/parser/type.go: Type, Type.Equals, combineTypes AS IT WAS up to /repo
+   e6ebb6a.  0e214ac rewrote combineTypes (mergeFixed, accepts); since e6ebb6a
+   parseMapLiteral calls it in source order, so it is no concern of C08 any
+   more: this model is kept for the regression theorems only and is no longer
+   compared with the implementation (the current function is C04's subject). *)
 Inductive base := BNum | BStr | BBool | BAny | BNone.
 Inductive ty :=
 | TBase (b : base)                         (* NUM_TYPE … NONE_TYPE singletons *)
@@ -135,7 +139,7 @@ Definition combineTypes (ts : list ty) : ty :=
 (* pkg/parser/expression.go: parseMapLiteral, first loop + combineTypes:
    types = [n.Type() for _, n := range mapLit.Pairs]; sub := combineTypes(types) *)
 Definition parseMapLiteral_sub (pi : list (str * ty)) : ty := combineTypes (map snd pi).
-(* proposed fix: iterate mapLit.Order *)
+(* the code since /repo e6ebb6a: iterate mapLit.Order *)
 Definition parseMapLiteral_sub_fixed (order : list (str * ty)) : ty := combineTypes (map snd order).
 
 (* ------------------------------------------------------------------ *)
@@ -265,7 +269,7 @@ Definition parseFontProps (pi : list (str * fval)) : ferr + fmap fval :=
   | Some e => inl e
   | None => inr (build_loop (fun k _ => k) (fun _ v => v) pi fempty)
   end.
-(* proposed fix: iterate *arg.Order *)
+(* the code since /repo 62da4a1: iterate arg.Order *)
 Definition parseFontProps_fixed (order : list (str * fval)) : ferr + fmap fval := parseFontProps order.
 
 (* ------------------------------------------------------------------ *)
@@ -368,21 +372,30 @@ Definition dec_eqpair (x : sx) : str * (val * val) :=
   end.
 
 (* ------------------------------------------------------------------ *)
-(* THE MODEL IN FORCE.  Each definition mirrors /repo as it is today; when the
-   corresponding proposed fix (proposed_fixes/C08-*.diff) is merged, switch the
-   right-hand side to the _fixed variant given in the comment (one line), and
-   the registry entry in Props/C08.v to OrderIndependent.  [pi] is the runtime's
+(* THE MODEL IN FORCE.  Each definition mirrors /repo as it is today (all five
+   fixes merged: 7307e12 af9ee3d 62da4a1 e6ebb6a abeb6de); the loop each one
+   replaced is named in the comment and kept above as the regression model.  [pi] is the runtime's
    iteration order, [order] the source/insertion order. *)
 Definition validateScope_cur (pi order : list (str * var)) : list perr :=
-  validateScope pi.                        (* fixed: validateScope_fixed pi *)
+  validateScope_fixed pi.                  (* since /repo af9ee3d (collect, sort by token offset); before: validateScope pi *)
 Definition evalMapLiteral_cur (pi order : list (str * mnode)) (s : list Z) :=
   evalMapLiteral_fixed mev order s.        (* since /repo 7307e12 (ranges over m.Order); before: evalMapLiteral mev pi s *)
 Definition parseFontProps_cur (pi order : list (str * fval)) : ferr + fmap fval :=
-  parseFontProps pi.                       (* fixed: parseFontProps_fixed order *)
+  parseFontProps_fixed order.              (* since /repo 62da4a1 (ranges over *arg.Order); before: parseFontProps pi *)
 Definition parseMapLiteral_sub_cur (pi order : list (str * ty)) : ty :=
-  parseMapLiteral_sub pi.                  (* fixed: parseMapLiteral_sub_fixed order *)
+  parseMapLiteral_sub_fixed order.         (* since /repo e6ebb6a (ranges over mapLit.Order); before: parseMapLiteral_sub pi *)
 Definition mapVal_Equals_cur (pi order : list (str * val)) (len2 : nat) (m2 : fmap val) : tri :=
-  mapVal_Equals veq pi len2 m2.            (* fixed: mapVal_Equals veq order len2 m2 *)
+  mapVal_Equals veq order len2 m2.         (* since /repo abeb6de (ranges over *m.Order); before: mapVal_Equals veq pi len2 m2 *)
+
+(* wrapAny over Pairs (parseMapLiteral's remaining map range and wrapAny's map
+   case): a value is either rewritten or makes wrapAny panic *)
+Definition wrap_w (ok : bool) : option bool := if ok then Some ok else None.
+Definition wrap_cur (pi order : list (str * bool)) : wrap_result bool :=
+  wrap_loop wrap_w pi fempty.              (* fixed: wrap_loop wrap_w order fempty *)
+Definition dec_wrap (x : sx) : str * bool :=
+  match x with Lst [k; v] => (sx_str_of k, sym_is v "ok") | _ => ([], true) end.
+Definition enc_wrap (r : wrap_result bool) : sx :=
+  match r with WrapOk _ => Lst [Sym (s_ "ok")] | WrapPanic k => Lst [Sym (s_ "panic"); Str k] end.
 
 Definition perm_case (x : sx) : sx :=
   match x with
@@ -408,6 +421,9 @@ Definition perm_case (x : sx) : sx :=
         let m2 : fmap val := fun k => match find (fun e => str_eqb (fst e) k) es with Some e => Some (snd (snd e)) | None => None end in
         let order := map (fun e => (fst e, fst (snd e))) es in
         Lst (map (fun pi => enc_tri (mapVal_Equals_cur pi order (List.length es) m2)) (perms order))
+      else if str_eqb site (s_ "wrap") then
+        let order := map dec_wrap args in
+        Lst (map (fun pi => enc_wrap (wrap_cur pi order)) (perms order))
       else if str_eqb site (s_ "names") then
         Lst (map (fun pi => Lst (map Str (eventHandlerNames pi))) (perms (map (fun a => (sx_str_of a, tt)) args)))
       else Sym (s_ "unknown-site")
